@@ -200,6 +200,14 @@ class World:
         pcfg.ID_DIGEST_SIZE = cfg["digest"]
         pcfg.RUNTIME_TYPE_CHECK = cfg["rtc"]
         pcfg.TRACE_LOGGING = bool(cfg.get("trace_logging", False))
+        if cfg.get("debug_logger"):
+            # the application has switched the library's logger to DEBUG (records go to a handler that drops them)
+            import logging
+
+            lg = logging.getLogger("pyoak")
+            lg.setLevel(logging.DEBUG)
+            lg.addHandler(logging.NullHandler())
+            lg.propagate = False
         FAULTS.disarm()
         if len(NODE_REGISTRY) != 0:
             raise HarnessError("registry not pristine at run start")
@@ -1217,6 +1225,30 @@ class Gen:
         self.script = steps
         self.w.stats.probes["fault_script_started"] += 1
 
+    def start_eq_history_script(self, actor: str) -> None:
+        """Two trees that differ only in a grandchild's origin are compared, both die, the first is built again and
+        duplicated: ids (h, h_1) are handed out again to other objects, comparisons start afresh."""
+        w = self.w
+        r = self.r("eqscript")
+        if len(self.cfg["origins"]) < 2:
+            return
+        o1, o2 = r.sample(self.cfg["origins"], 2)
+        leaf = {"c": "LeafA", "p": {"a": r.choice(self.cfg["pools"]["str"])}, "ch": {}, "o": o1}
+        leaf2 = dict(leaf, o=o2)
+        mk = lambda lf: {"c": "Pair", "p": {}, "ch": {"left": {"c": "Seq", "p": {}, "ch": {"items": [lf]}, "o": o1}, "right": {"c": "LeafB", "p": {"a": "e"}, "ch": {}, "o": o1}}, "o": o1}  # noqa: E731
+        t1, t2, t3 = self.out() + "e1", self.out() + "e2", self.out() + "e3"
+        self.script = [
+            lambda a: {"op": "construct", "spec": mk(leaf), "out": t1},
+            lambda a: {"op": "construct", "spec": mk(leaf2), "out": t2},
+            lambda a: {"op": "obs", "what": "eq", "n": {"h": t1, "path": []}, "m": {"h": t2, "path": []}} if t1 in w.handles and t2 in w.handles else None,
+            lambda a: {"op": "drop", "h": t1} if t1 in w.handles else None,
+            lambda a: {"op": "drop", "h": t2} if t2 in w.handles else None,
+            lambda a: {"op": "gc"},
+            lambda a: {"op": "construct", "spec": mk(leaf), "out": t3},
+            lambda a: {"op": "duplicate", "n": {"h": t3, "path": []}, "out": self.out()} if t3 in w.handles else None,
+        ]
+        w.stats.probes["eq_history_script_started"] += 1
+
     def start_shared_script(self, actor: str) -> None:
         """One node object at several positions of a tree is written, every original is lost, the document is read
         back (here and in a fresh process): it must again be ONE object at all its positions."""
@@ -1314,6 +1346,10 @@ class Gen:
         if self.cfg["prop"] in ("C01", "C03", "C14") and r.random() < 0.35:
             self.start_wide_script(actor)
             return
+        if self.cfg["prop"] in ("C14", "C10") and r.random() < 0.3:
+            self.start_eq_history_script(actor)
+            if getattr(self, "script", None):
+                return
         if self.cfg["prop"] == "C04" and r.random() < 0.4:
             self.start_shared_script(actor)
             return
@@ -1882,6 +1918,10 @@ def make_config(rseed: int, prop: str, tier: str, faults: bool) -> dict[str, Any
     if prop == "C04":
         pools["float"] = r.sample(U.FLOAT_POOL + [-0.0], 4)
         pools["int"] = r.sample(U.INT_POOL, 4)
+    if prop in ("C01", "C03", "C04", "C14") and r.random() < 0.12:
+        # swarm: canonically equivalent but unequal strings (NFC / NFD, compatibility signs) side by side
+        strpool = strpool[:2] + r.sample(["caf\u00e9", "cafe\u0301", "\u212b", "\u00c5", "\u2126", "\u03a9", "\uac00", "\u1100\u1161"], 4)
+        pools["str"] = strpool
     if prop in ("C01", "C03", "C14", "C10") and r.random() < 0.2:
         # swarm: ==-equal values of different types side by side (1 / 1.0 / True, 0 / 0.0 / False) in a value-rich class
         leafs += ["Vals", "Vals"]
@@ -1910,6 +1950,10 @@ def make_config(rseed: int, prop: str, tier: str, faults: bool) -> dict[str, Any
     origins = r.sample(U.ORIGIN_KEYS, r.choice([1, 2, 3])) + (r.sample(U.EXTRA_ORIGIN_KEYS, r.choice([1, 2, 3])) + ["g:a"] if prop == "C04" and r.random() < 0.4 else [])
     if exotic and prop == "C03":
         origins = r.choice([["c:a:0-5", "c:a:0-5@l2"], ["g:a", "c:a:0-0"]])
+    if prop == "C14" and r.random() < 0.08:
+        # unequal origins that share one fqn: replace(origin=...) must store the GIVEN origin
+        origins = r.choice([["c:a:0-5", "c:a:0-5@l2", "no"], ["g:a", "c:a:0-0", "x:b:/r"]])
+        exotic = True
     return {
         "machine": NAME,
         "prop": prop,
@@ -1938,7 +1982,8 @@ def make_config(rseed: int, prop: str, tier: str, faults: bool) -> dict[str, Any
         "threads": prop in ("C04", "C10", "C03") and r.random() < 0.3,
         "dyn_keep_old": prop == "C03" and r.random() < 0.5,
         "scripts": prop in ("C14", "C04", "C03", "C01", "C10") and r.random() < 0.6,
-        "trace_logging": r.random() < 0.1,
+        "trace_logging": (tl := r.random() < 0.12),
+        "debug_logger": tl and r.random() < 0.6,
         "exotic_origins": exotic,
         "ser_faults": prop in ("C03", "C10", "C04"),
     }
